@@ -4,8 +4,11 @@
    with deferred newlines, line counting and #line deltas (Level I) give every probe the
    position Level A (physical line of the token in its own file, shifted only by #line) gives
    it, for every file of <= MaxLen units over 19 unit kinds x {LF, CRLF, CR} x {terminated,
-   unterminated last line}.  Controls: the pinned read_line_marker (off by one) and the
-   continuation-line probes (recorded finding) must make TLC fail.
+   unterminated last line} -- up to exactly the two recorded deviations of the tree as it is
+   (finding D16-line: a probe governed by a #line of its own file is one too high; finding
+   D16-splice: probes on continuation lines).  Controls TLC must reject: a #line delta off by
+   two, the tree's delta under the strict invariant, continuation-line probes included; the
+   repaired design (Lines_repaired.cfg) must satisfy the strict invariant.
 2. Generate -> replay: every (sampled) scenario becomes a real main.c + headers; four
    observables of the tree under test are compared with Level A for every probe:
    __LINE__/__FILE__ in `chibicc -E`, the same printed by the compiled program, the
@@ -66,10 +69,14 @@ def materialise(b, d, broken=None):
         open(d + "/" + h, "w", newline="").write(render(hu, h, b["eol"], b["final"])[0])
 
 
-def _limits():
-    # runaway compiler/test-program runs are cut by CPU time (independent of machine load), not by wall time
-    import resource
-    resource.setrlimit(resource.RLIMIT_CPU, (20, 20))
+def rl(cmd, d, timeout=60, cpu_s=20):
+    """the compiler under test (or gcc as oracle) and programs they produce: vt.run_limited; a wall timeout is
+    retried once with a long limit and is then infrastructure trouble; a CPU/memory kill is a failed run"""
+    for tmo in (timeout, 6 * timeout):
+        p = vt.run_limited(cmd, timeout=tmo, mem_gb=4, cpu_s=cpu_s, cwd=d, errors="replace")
+        if p.returncode != -999:
+            return p
+    raise Infra("%s did not finish within %ds" % (" ".join(cmd)[-200:], 6 * timeout))
 
 
 PROBE_RE = re.compile(r'"([A-Za-z0-9_.]+)"\s*,\s*(\d+)\s*,\s*"([^"]*)"')
@@ -80,17 +87,17 @@ def norm(f):
 
 
 def obs_E(cmd, d):
-    p = subprocess.run(cmd + ["-E", "main.c"], cwd=d, capture_output=True, text=True, timeout=180, preexec_fn=_limits, errors="replace")
+    p = rl(cmd + ["-E", "main.c"], d)
     if p.returncode:
         return None, p.stderr[-300:]
     return [(m.group(1), int(m.group(2)), norm(m.group(3))) for m in PROBE_RE.finditer(p.stdout)], ""
 
 
 def obs_run(cmd, d):
-    p = subprocess.run(cmd + ["-o", "prog", "main.c"], cwd=d, capture_output=True, text=True, timeout=180, preexec_fn=_limits, errors="replace")
+    p = rl(cmd + ["-o", "prog", "main.c"], d)
     if p.returncode:
         return None, p.stderr[-300:]
-    r = subprocess.run([d + "/prog"], cwd=d, capture_output=True, text=True, timeout=180, preexec_fn=_limits)
+    r = rl([d + "/prog"], d, cpu_s=5)
     out = []
     for l in r.stdout.splitlines():
         f = l.split(" ")
@@ -100,7 +107,7 @@ def obs_run(cmd, d):
 
 
 def obs_loc(cmd, d):
-    p = subprocess.run(cmd + ["-S", "-o", "-", "main.c"], cwd=d, capture_output=True, text=True, timeout=180, preexec_fn=_limits, errors="replace")
+    p = rl(cmd + ["-S", "-o", "-", "main.c"], d)
     if p.returncode:
         return None, p.stderr[-300:]
     files, cur, out = {}, None, []
@@ -125,8 +132,7 @@ def obs_diag(cmd, d, gcc=False):
         cmd = [x for x in cmd if x != "-w"] + ["-fsyntax-only", "-Werror=implicit-function-declaration"]
     else:
         cmd = cmd + ["-c", "-o", "/dev/null"]
-    p = subprocess.run(cmd + ["main.c"], cwd=d,
-                       capture_output=True, text=True, timeout=180, preexec_fn=_limits, errors="replace")
+    p = rl(cmd + ["main.c"], d)
     for l in p.stderr.splitlines():
         m = re.match(r"([^:\s]+):(\d+):(?:\d+:)? (?:error: )?", l)
         if m and (not gcc or "error" in l):
@@ -149,13 +155,15 @@ def classify(b, exp, got):
         return [("rejected", "")]
     if [e[0] for e in exp] != [g[0] for g in got]:
         return [("probe-set", "expected probes %s got %s" % ([e[0] for e in exp], [g[0] for g in got]))]
-    for e, g, k in zip(exp, got, [e[3] for e in exp]):
+    for e, g in zip(exp, got):
         if (e[1], e[2]) == (g[1], g[2]):
             continue
+        k, governed = e[3], e[4]       # governed: position fixed by a preceding #line in the probe's own file (Level A's g)
+        dev = g[1] - e[1]
         if k == "SP":
-            cls = "splice-continuation" if g[1] == e[1] - 1 and g[2] == e[2] else "splice-other"
-        elif has_line_directive(b, real_file(e[0])) and e[1] >= 50:
-            cls = "line-directive"
+            cls = "splice-continuation" if dev == -1 and g[2] == e[2] else "splice-other"
+        elif governed:
+            cls = "line-directive-offbyone" if dev == 1 and g[2] == e[2] else "line-directive-other"
         else:
             cls = "line-shift" if g[2] == e[2] else "file-name"
         out.append((cls, "%s expected %s:%d got %s:%d" % (e[0], e[2], e[1], g[2], g[1])))
@@ -163,7 +171,7 @@ def classify(b, exp, got):
 
 
 def expected(b, obs):
-    exp = [(e["id"], e["line"], e["file"], e["k"]) for e in b["exp"]]
+    exp = [(e["id"], e["line"], e["file"], e["k"], e["g"]) for e in b["exp"]]
     if obs == "loc":
         exp = [e for e in exp if e[3] in ("P", "KP", "SP") and not has_line_directive(b, real_file(e[0]))]
     return exp
@@ -239,10 +247,13 @@ def run(ctx):
     out = os.path.join(ctx.scratch, "lines.ndjson")
     with concurrent.futures.ThreadPoolExecutor(4) as pool:
         mc = pool.submit(ctx.tlc_expect_ok, "lines", "Lines", ctx.cfg("lines", "Lines_mc.cfg", MaxLen=3 if q else 4),
-                         "splice/line-count/#line design does not preserve positions", workers=4 if q else 8, timeout=1500)
-        c1 = pool.submit(ctx.tlc, "lines", "Lines", ctx.cfg("lines", "Lines_mc.cfg", MaxLen=2, FixLine=False), workers=1, count=False)
+                         "splice/line-count/#line design departs from Level A beyond the two recorded deviations", workers=4 if q else 8, timeout=1500)
+        c1 = pool.submit(ctx.tlc, "lines", "Lines", ctx.cfg("lines", "Lines_mc.cfg", MaxLen=2, LineOff=2), workers=1, count=False)
+        c3 = pool.submit(ctx.tlc, "lines", "Lines", ctx.cfg("lines", "Lines_mc.cfg", MaxLen=2, RecordedLineDev=0), workers=1, count=False)
+        rep = pool.submit(ctx.tlc_expect_ok, "lines", "Lines", ctx.cfg("lines", "Lines_repaired.cfg", MaxLen=2),
+                          "the repaired design (#line delta = n - line - 1) does not give Level A positions", workers=1)
         c2cfg = ctx.cfg("lines", "Lines_mc.cfg", MaxLen=2)
-        c2txt = open(c2cfg).read().replace("INVARIANTS SameButSplice SameProbes", "INVARIANTS SameAll")
+        c2txt = open(c2cfg).read().replace("INVARIANTS SameButRecorded SameProbes", "INVARIANTS SameAll")
         open(c2cfg, "w").write(c2txt)
         c2 = pool.submit(ctx.tlc, "lines", "Lines", c2cfg, workers=1, count=False)
         gen = pool.submit(ctx.tlc, "lines", "Lines", ctx.cfg("lines", "Lines_gen.cfg", MaxLen=3, Seed=ctx.seed, Stride=37 if q else 3),
@@ -262,8 +273,11 @@ def run(ctx):
         replay_lines(ctx, tree, behs, full_every=3 if q else 2)
         ctx.phase("replay done")
         mc.result()
+        rep.result()
         if c1.result().ok:
-            raise Infra("sensitivity control failed: TLC accepts the off-by-one #line delta")
+            raise Infra("sensitivity control failed: TLC accepts a #line delta that is off by two")
+        if c3.result().ok:
+            raise Infra("sensitivity control failed: TLC accepts the tree's #line delta under the strict invariant")
         if c2.result().ok:
             raise Infra("sensitivity control failed: TLC accepts continuation-line probes (SameAll)")
     ctx.assumptions += ["Level I (Lines.tla) is a hand transcription of tokenize.c/preprocess.c at the granularity of abstract characters",
